@@ -108,6 +108,25 @@ func applyTimeRange(candidates []treasure.Treasure, beaconType hydra.BeaconType,
 	return out
 }
 
+// dropWithoutBeaconTime removes candidates whose timestamp on the beacon
+// axis is zero. The time beacons never contain such Treasures (see
+// swamp.treasuresForBeacon / addTreasureToBeacons), so the beacon walk
+// cannot return them; the bucket route must not either.
+func dropWithoutBeaconTime(candidates []treasure.Treasure, beaconType hydra.BeaconType) []treasure.Treasure {
+	switch beaconType {
+	case hydra.BeaconTypeCreationTime, hydra.BeaconTypeUpdateTime, hydra.BeaconTypeExpirationTime:
+	default:
+		return candidates
+	}
+	out := candidates[:0]
+	for _, t := range candidates {
+		if beaconTimeOf(t, beaconType) != 0 {
+			out = append(out, t)
+		}
+	}
+	return out
+}
+
 func beaconTimeOf(t treasure.Treasure, beaconType hydra.BeaconType) int64 {
 	switch beaconType {
 	case hydra.BeaconTypeCreationTime:
